@@ -198,3 +198,17 @@ Theorem C15_own_dumps_load_bytes : forall (t : textw) (d : pv) junk,
   exists o tr, load_content default_world (c_dialect t) (dump_bytes d ++ junk) = (Done o, tr) /\ decode o = Some d.
 Proof. exact own_dumps_load_bytes. Qed.
 Print Assumptions C15_own_dumps_load_bytes.
+
+(* INST is not a second spelling of GLOBAL for non-ASCII names: the C unpickler (load_inst) reads its two lines with
+   PyUnicode_DecodeASCII, so an INST opcode is decoded only from two pure-ASCII lines (to exactly those bytes) ... *)
+Theorem C15_inst_lines_are_ascii : forall fr (t : textw) l1 l2 o,
+  build_op (cdl fr t) 105 (RLine2 l1 l2) = Some o ->
+  o = INST l1 l2 /\ all_ascii l1 = true /\ all_ascii l2 = true.
+Proof. exact inst_decoded_only_ascii. Qed.
+Print Assumptions C15_inst_lines_are_ascii.
+(* ... and a byte >= 128 in either line ends the load with a decoding error (UnicodeDecodeError) before find_class is
+   asked: nothing is resolved, which the safety theorem above allows (witness: [inst_nonascii_is_decode_error]) *)
+Theorem C15_inst_nonascii_not_decoded : forall fr (t : textw) l1 l2,
+  all_ascii l1 && all_ascii l2 = false -> build_op (cdl fr t) 105 (RLine2 l1 l2) = None.
+Proof. exact inst_nonascii_not_decoded. Qed.
+Print Assumptions C15_inst_nonascii_not_decoded.
